@@ -872,6 +872,27 @@ namespace plan
       it->b = b;
       m.preds[p].body.push_back(it);
     }
+    else if (n == "r_logic")
+    { // a disjunction of two relations in a rule body, over the rule's parameters and the global variables
+      if (m.preds.empty() || m.unit != 0)
+        return;
+      int p = static_cast<int>(modn(op.arg(0), m.preds.size()));
+      Scope &sc = scope_of_pred(p);
+      size_t pos = 1;
+      BP x = parse_rel(op, pos, sc, true), y = parse_rel(op, pos, sc, true);
+      if (!x || !y || btext(x) == btext(y))
+        return;
+      for (auto &r : {x, y})
+        if (r->rel == EQ || r->rel == NEQ)
+          r->rel = LEQ; // '==' / '!=' bind weaker than '|'
+      auto b = std::make_shared<B>();
+      b->k = B::OR;
+      b->sub = {x, y};
+      auto it = std::make_shared<BodyItem>();
+      it->k = BodyItem::ASSERT;
+      it->b = b;
+      m.preds[p].body.push_back(it);
+    }
     else if (n == "r_goal")
     {
       if (m.preds.empty() || m.unit != 0)
